@@ -320,6 +320,7 @@ func c08(p *model.Prog, r *report.Result) {
 	w5CsidForms(p, r, "C08.R16")
 	w6CopyBuffers(p, r, "C08.R17")
 	w6PeerChunkSize(p, r, "C08.R18")
+	w7PeerChunkSizeDefault(p, r, "C08.R19")
 	c08r1314(p, r, runLoop)
 }
 
